@@ -567,10 +567,14 @@ func c05Worker(w *W) {
 		}
 	case "doublestop":
 		mk := map[string]func() log.Appender{
-			"Discard":     func() log.Appender { return &log.DiscardAppender{} },
-			"Console":     func() log.Appender { return &log.ConsoleAppender{Layout: &log.TextLayout{}} },
-			"File":        func() log.Appender { return &log.FileAppender{Layout: &log.TextLayout{}, FileDir: dir, FileName: "ds.log"} },
-			"RollingFile": func() log.Appender { return &log.RollingFileAppender{Layout: &log.TextLayout{}, FileDir: dir, FileName: "dsr.log", Rotation: log.TimeRotation{Interval: time.Hour}, MaxAge: 1} },
+			"Discard": func() log.Appender { return &log.DiscardAppender{} },
+			"Console": func() log.Appender { return &log.ConsoleAppender{Layout: &log.TextLayout{}} },
+			"File": func() log.Appender {
+				return &log.FileAppender{Layout: &log.TextLayout{}, FileDir: dir, FileName: "ds.log"}
+			},
+			"RollingFile": func() log.Appender {
+				return &log.RollingFileAppender{Layout: &log.TextLayout{}, FileDir: dir, FileName: "dsr.log", Rotation: log.TimeRotation{Interval: time.Hour}, MaxAge: 1}
+			},
 		}
 		_ = os.MkdirAll(dir, 0755)
 		for name, f := range mk {
